@@ -405,6 +405,14 @@ def main(argv):
             violations.append((name, src, st.get("violation_sig", "") + ": " + (st.get("violation_msg", "")[:1500])))
         else:
             infra.append("%s shard %d: exit %s without a recorded violation (see %s)" % (name, pr.shard, rc, pr.logpath))
+    # --- generator health: a check whose cases are mostly discarded decides little
+    for name, m in merged.items():
+        tcfg = next((t for t in cfg["tests"] if t["name"] == name), {})
+        limit = tcfg.get("max_discard_rate", 0.25)
+        nd = sum(m["discards"].values())
+        if m["evaluations"] >= 50 and nd > limit * m["evaluations"]:
+            infra.append("%s: %d of %d cases were discarded (%s) - above the %.0f%% health limit; the run decides too little to be trusted" % (
+                name, nd, m["evaluations"], dict(sorted(m["discards"].items())), 100 * limit))
     # --- persist found replays outside the scratch out dir
     found_dir = os.path.join(BUILD, "found", os.path.basename(build_dir(pid, repo)))
     final_viol = []
